@@ -202,23 +202,39 @@ def int_map(ctx) -> None:
 
 
 # ------------------------------------------------------------------------------- aggregation
+def _tip_host(ctx, rule: str):
+    """(function, view, name of the tip variable, loop node, resolved iterable) of the code that converts a tip collection:
+    prepare_aspirate_dispense_parameters itself, or a new helper it hands its `tip` argument to."""
+    f0 = ctx.prog.require_func("prepare_aspirate_dispense_parameters", rule)
+    cands = [(f0, ctx.fv(f0), "tip")]
+    fv0 = ctx.fv(f0)
+    for cs in fv0.calls():
+        hv = fv0._helper_view(cs.call)
+        if hv is None:
+            continue
+        g, conc = hv
+        for i, a in enumerate(cs.call.args):
+            if is_name(a, "tip") and i < len(g.params):
+                cands.append((g, ctx.fv(g, conc), g.params[i]))
+        for k in cs.call.keywords:
+            if k.arg and is_name(k.value, "tip") and k.arg in g.params:
+                cands.append((g, ctx.fv(g, conc), k.arg))
+    for f, fv, tname in cands:
+        for lp in (n for n in fv.cfg.nodes if n.kind == "for"):
+            it = fv.res.resolve(lp.ast.iter, lp.id)
+            if tname in {s_.id for s_ in ast.walk(it) if isinstance(s_, ast.Name)}:
+                return f, fv, tname, lp, it
+    return f0, fv0, "tip", None, None
+
+
 def aggregate_records(ctx) -> None:
     """The iterable branch of prepare_aspirate_dispense_parameters."""
     rule = "C10.aggregate"
-    f = ctx.prog.require_func("prepare_aspirate_dispense_parameters", rule)
-    fv = ctx.fv(f)
-    loops = [n for n in fv.cfg.nodes if n.kind == "for"]
-    tip_loop = None
-    for lp in loops:
-        it = fv.res.resolve(lp.ast.iter, lp.id)
-        base = it
-        names = {s.id for s in ast.walk(base) if isinstance(s, ast.Name)}
-        if "tip" in names:
-            tip_loop = (lp, it)
-    if tip_loop is None:
+    f, fv, TIP, lp, it = _tip_host(ctx, rule)
+    if lp is None:
         ctx.rep.inconclusive(rule, f.qualname, "loop over the tip collection not found")
         return
-    lp, it = tip_loop
+    ctx.rep.touch(f)
     w = f.where(lp.ast)
     tr = seq_transformers(it)
     phi_args = it.args if is_sym(it, "phi") else [it]
@@ -250,7 +266,8 @@ def aggregate_records(ctx) -> None:
         ctx.rep.check(ok, rule, f"{f.qualname}/member[{show(cs.call.args[0])[:30]}]", "numbers are converted with int_to_tip, Tip members are taken as they are",
                       f"`{stmt_key(cs.call)[:60]}`: a collection element enters the mask without the number->Tip conversion (or a Tip member is converted again)", where=f.where(cs.call))
     # the fold
-    folds = [n for n in fv.cfg.nodes if n.kind == "stmt" and isinstance(n.ast, ast.Assign) and is_name(n.ast.targets[0], "tip") and any(is_name(s, L) for s in ast.walk(n.ast.value))]
+    folds = [n for n in fv.cfg.nodes if n.kind == "stmt" and isinstance(n.ast, (ast.Assign, ast.Return)) and n.ast.value is not None and any(is_name(s, L) for s in ast.walk(n.ast.value)) and (
+        (isinstance(n.ast, ast.Assign) and is_name(n.ast.targets[0], TIP)) or isinstance(n.ast, ast.Return))]
     if len(folds) != 1:
         ctx.rep.inconclusive(rule, f.qualname + "/fold", f"expected one fold of `{L}` into the mask, found {len(folds)}")
         return
@@ -262,7 +279,8 @@ def aggregate_records(ctx) -> None:
     rej = any(n.id in body and not pol and raise_class(fv, r)[0] == "ValueError" for n, test, pol, r in fv.raising_guards())
     ctx.rep.check(rej, "C10.type-guard", f"{f.qualname}/element-type", "elements that are neither int nor Tip raise ValueError", "a collection element that is neither an int nor a Tip is not rejected with ValueError", where=w)
     # scalar int conversion
-    conv_scalar = any(n.kind == "stmt" and isinstance(n.ast, ast.Assign) and is_name(n.ast.targets[0], "tip") and isinstance(n.ast.value, ast.Call) and call_fname(n.ast.value) == "int_to_tip" for n in fv.cfg.nodes)
+    conv_scalar = any(n.kind == "stmt" and isinstance(n.ast, (ast.Assign, ast.Return)) and n.ast.value is not None and isinstance(n.ast.value, ast.Call) and call_fname(n.ast.value) == "int_to_tip"
+                      and n.ast.value.args and is_name(n.ast.value.args[0], TIP) and (isinstance(n.ast, ast.Return) or is_name(n.ast.targets[0], TIP)) for n in fv.cfg.nodes)
     ctx.rep.check(conv_scalar, rule, f"{f.qualname}/scalar", "a single tip number is converted with int_to_tip", "a single tip number is not converted with int_to_tip", where=f.where())
     # neither Tip nor iterable nor int -> ValueError
     other = False
@@ -433,15 +451,16 @@ def any_rules(ctx) -> None:
     rule = "C10.any"
     f = ctx.prog.require_func("prepare_aspirate_dispense_parameters", rule)
     fv = ctx.fv(f)
-    # inside a collection: raise ValueError
+    # inside a collection: raise ValueError (in the function that converts the collection: this one or a new helper)
+    hf, hv_, _tn, hlp, _it = _tip_host(ctx, rule)
     inside = False
-    for n, test, pol, r in fv.raising_guards():
-        if not pol or raise_class(fv, r)[0] != "ValueError" or not fv.cfg.enclosing_loops(n.id):
+    for n, test, pol, r in hv_.raising_guards():
+        if not pol or raise_class(hv_, r)[0] != "ValueError" or hlp is None or hlp.id not in hv_.cfg.enclosing_loops(n.id):
             continue
-        rt = fv.res.resolve(test, n.id)
-        if isinstance(rt, ast.Compare) and isinstance(rt.ops[0], (ast.Eq, ast.Is)) and elem_parts(rt.left) is not None and _is_any(rt.comparators[0]):
+        rt = hv_.res.resolve(test, n.id)
+        if isinstance(rt, ast.Compare) and isinstance(rt.ops[0], (ast.Eq, ast.Is)) and elem_parts(rt.left) is not None and elem_parts(rt.left)[0] == f"loop@{hlp.id}" and _is_any(rt.comparators[0]):
             inside = True
-    ctx.rep.check(inside, rule, f"{f.qualname}/in-collection", "Tip.Any inside a collection raises ValueError", "Tip.Any (-1) inside a collection is not rejected: it contributes -1 to the mask", where=f.where())
+    ctx.rep.check(inside, rule, f"{hf.qualname}/in-collection", "Tip.Any inside a collection raises ValueError", "Tip.Any (-1) inside a collection is not rejected: it contributes -1 to the mask", where=hf.where())
     # alone: "" if tip == -1 else tip
     rets = [n for n in fv.cfg.nodes if n.kind == "stmt" and isinstance(n.ast, ast.Return) and n.ast.value is not None]
     ok = False
